@@ -115,12 +115,10 @@ theorem forward_prims : PrimsHoare (fun _ => True) Forward where
   lookupFnM := fun n => by (fwd_prim lookupFnM)
   echoLine := fwd_echoLine
   allocateTrackedQubit := fun n => by (fwd_prim allocateTrackedQubit simReset nextDraw unmarkMeasured)
-  ensureQubitExists := fwd_ensureQubitExists
   ensureQubitActive := fwd_ensureQubitActive
-  simReset := fun q => by (fwd_prim simReset nextDraw)
+  resetQubit := fun q p => by (fwd_prim resetQubit ensureQubitExists simReset nextDraw unmarkMeasured)
   simGate := fun op => by (fwd_prim simGate)
   simCx := fun c t => by (fwd_prim simCx)
-  unmarkMeasured := fun i => by (fwd_prim unmarkMeasured)
   measureQubit := fwd_measureQubit
 
 /-- **No program can redefine a function, flip the echo switch, retract a printed line or a recorded outcome, or
